@@ -42,7 +42,7 @@ __all__ = [
     "canonicalize_license_expression",
 ]
 
-license_ref_allowed = re.compile("^[A-Za-z0-9.-]*$")
+license_ref_allowed = re.compile("^[A-Za-z0-9.-]+$")
 
 NormalizedLicenseExpression = NewType("NormalizedLicenseExpression", str)
 
@@ -68,11 +68,9 @@ def canonicalize_license_expression(
     # whitespace.
     license_expression = raw_license_expression.replace("(", " ( ").replace(")", " ) ")
     licenseref_prefix = "LicenseRef-"
-    license_refs = {
-        ref.lower(): "LicenseRef-" + ref[len(licenseref_prefix) :]
-        for ref in license_expression.split()
-        if ref.lower().startswith(licenseref_prefix.lower())
-    }
+    # Keep the tokens in their original case: the part of a LicenseRef after the
+    # prefix is case-sensitive and is preserved.
+    original_tokens = license_expression.split()
 
     # Normalize to lower case so we can look up licenses/exceptions
     # and so boolean operators are Python-compatible.
@@ -118,7 +116,7 @@ def canonicalize_license_expression(
 
     # Take a final pass to check for unknown licenses/exceptions.
     normalized_tokens = []
-    for token in tokens:
+    for original_token, token in zip(original_tokens, tokens):
         if token in {"or", "and", "with", "(", ")"}:
             normalized_tokens.append(token.upper())
             continue
@@ -138,10 +136,13 @@ def canonicalize_license_expression(
                 suffix = ""
 
             if final_token.startswith("licenseref-"):
-                if not license_ref_allowed.match(final_token):
-                    message = f"Invalid licenseref: {final_token!r}"
+                # The reference is taken from this very token (not looked up by its
+                # lower-cased spelling), must not be empty and cannot carry a "+".
+                license_ref = original_token[len(licenseref_prefix) :]
+                if not license_ref_allowed.match(license_ref):
+                    message = f"Invalid licenseref: {original_token!r}"
                     raise InvalidLicenseExpression(message)
-                normalized_tokens.append(license_refs[final_token] + suffix)
+                normalized_tokens.append(licenseref_prefix + license_ref)
             else:
                 if final_token not in LICENSES:
                     message = f"Unknown license: {final_token!r}"
